@@ -158,6 +158,7 @@ def sworldWith (blk : String → Nat → Nat → Nat) (st : Strm) (keyMethod : S
   throw cls := throw cls
   rethrow := throw "reraise"
   catchAll body handler := tryCatch body (fun _ => handler)
+  catchCls cls body handler := tryCatch body (fun e => if e == cls then handler else throw e)
 
 def sworld0 (blk : String → Nat → Nat → Nat) (st : Strm) : World M SV := sworldWith blk st fun _ => throw "TypeError"
 
